@@ -205,3 +205,4 @@ def replay(path):
 from props_pure import *
 from props_algebra import *
 from props_engine import *
+from props_sem import *
